@@ -198,11 +198,12 @@ func vEqual(a, b *V) bool {
 }
 
 type Case struct {
-	Kind   string `json:"kind"` // prog | pack
-	Prog   *Prog  `json:"prog,omitempty"`
-	DAG    bool   `json:"dag,omitempty"`
-	Spec   *NSpec `json:"spec,omitempty"`
-	Chunks []*V   `json:"chunks"`
+	Kind   string   `json:"kind"` // prog | pack
+	Prog   *Prog    `json:"prog,omitempty"`
+	DAG    bool     `json:"dag,omitempty"`
+	Spec   *NSpec   `json:"spec,omitempty"`
+	Chunks []*V     `json:"chunks"`
+	Nil    *NilSpec `json:"nil,omitempty"` // kind nilout: a nil result of an interface-typed node (direct oracle only)
 	// a second input (same keys, other strings, another chunking) for the same compiled object
 	Chunks2 []*V   `json:"chunks2,omitempty"`
 	Inject  string `json:"inject,omitempty"` // "", dupkey, nokey, fmkey: deliberate out-of-domain construction
@@ -410,6 +411,9 @@ func (engine) Decode(raw json.RawMessage) (any, error) {
 	if err := json.Unmarshal(raw, &c); err != nil {
 		return nil, err
 	}
+	if c.Kind == "nilout" && c.Nil != nil {
+		return &c, nil
+	}
 	if c.Kind == "prog" && c.Prog == nil || c.Kind == "pack" && c.Spec == nil || len(c.Chunks) == 0 {
 		return nil, fmt.Errorf("incomplete case")
 	}
@@ -553,6 +557,9 @@ func progTerm(c *Case, run inRun, vs []*V, tags *[]string) string {
 
 func (engine) Run(ci any) lib.Result {
 	c := ci.(*Case)
+	if c.Kind == "nilout" {
+		return runNil(c)
+	}
 	res := lib.Result{}
 	rec := &recorder{}
 
